@@ -324,6 +324,9 @@ void MEDDLY::unique_table::subtable::expand()
 #ifdef DEBUG_SLOW
     fprintf(stderr, "Enlarging unique table (current size: %d)\n", size);
 #endif
+#ifdef MEDDLY_VERIF
+    MEDDLY_VERIF_PROBE(P_UT_EXPAND);
+#endif
     node_handle ptr = convertToList();
     // length will the same as num_entries previously
     unsigned newSize = size * 2;
@@ -350,6 +353,9 @@ void MEDDLY::unique_table::subtable::shrink()
     MEDDLY_DCASSERT(size > MIN_SIZE);
 #ifdef DEBUG_SLOW
     fprintf(stderr, "Shrinking unique table (current size: %d)\n", size);
+#endif
+#ifdef MEDDLY_VERIF
+    MEDDLY_VERIF_PROBE(P_UT_SHRINK);
 #endif
     node_handle ptr = convertToList();
     // length will the same as num_entries previously
